@@ -3,12 +3,15 @@ package props
 import (
 	"fmt"
 	"strings"
+	"sync"
 	"testing"
 
 	"pgregory.net/rapid"
 
 	"verif/xast"
 	"verif/xmodel"
+	"verif/xparse"
+	"verif/xref"
 )
 
 // C08 - every XPath 1.0 expression parses to the tree its grammar defines;
@@ -30,6 +33,104 @@ type c08NegCase struct {
 }
 
 var c08Pos = reg("C08", "c08-renderings", checkC08Pos)
+var c08Sandwich = reg("C08", "c08-sandwich", checkC08Sandwich)
+
+type c08TextCase struct {
+	Text string `json:"text"`
+}
+
+var c08Fixed struct {
+	once sync.Once
+	p    *prepared
+	err  error
+}
+
+func c08FixedDoc() (*prepared, error) {
+	c08Fixed.once.Do(func() {
+		ev, err := xmlToEvents(string(c15DocXML))
+		if err != nil {
+			c08Fixed.err = err
+			return
+		}
+		c08Fixed.p, c08Fixed.err = prepareDoc(ev)
+	})
+	return c08Fixed.p, c08Fixed.err
+}
+
+// checkC08Sandwich judges an arbitrary string with the harness's own
+// recogniser: strictly valid => BuildExpr accepts (and, when the reference
+// can evaluate it, Exec returns that value); BuildExpr accepts => leniently
+// valid.  Strings only the lenient mode accepts are not judged.
+func checkC08Sandwich(c *c08TextCase) error {
+	ast, _, serr := xparse.Parse(c.Text, xparse.Strict)
+	_, feats, lerr := xparse.Parse(c.Text, xparse.Lenient)
+	g, berr := safeBuild(c.Text)
+	if pe, ok := berr.(*panicError); ok {
+		return fmt.Errorf("BuildExpr(%q) panicked: %v", c.Text, pe.v)
+	}
+	st.Eval(1)
+	switch {
+	case serr == nil && berr != nil:
+		return fmt.Errorf("BuildExpr(%q) rejected a syntactically valid XPath 1.0 expression: %v", c.Text, firstLine(berr.Error()))
+	case berr == nil && lerr != nil:
+		return fmt.Errorf("BuildExpr(%q) accepted a string that is not an XPath 1.0 expression (%v)", c.Text, lerr)
+	case berr == nil && g.BSR == nil:
+		return fmt.Errorf("BuildExpr(%q) returned an empty query and a nil error", c.Text)
+	}
+	if serr != nil {
+		if lerr == nil {
+			for f := range feats {
+				st.Class("lenient-only: " + f)
+			}
+			st.Discard("lenient-only")
+		}
+		return nil
+	}
+	// strictly valid and accepted: the compiled query must mean what the string means
+	p, err := c08FixedDoc()
+	if err != nil {
+		return fmt.Errorf("harness: %v", err)
+	}
+	ec := &evalCase{Ctx: "/", Expr: ast, Text: c.Text, NS: map[string]string{"p": "urn:x", "x": "urn:x"},
+		Vars: []varBinding{{Local: "n", T: "num", Num: "2.5"}, {Local: "s", T: "str", Str: "ab"}, {Local: "v", T: "nodes", Nodes: []string{"/0/0", "/0"}}}}
+	set, env, err := ec.settings(p)
+	if err != nil {
+		return fmt.Errorf("harness: %v", err)
+	}
+	if excluded("C06-round-negative-tie") {
+		env.RoundHalfAwayNegative = true
+	}
+	if excluded("C08-slash-star-ambiguity") && slashStarAmbiguous(c.Text) {
+		st.KnownHit("C08-slash-star-ambiguity")
+		return nil
+	}
+	ref, rerr := env.Eval(ast, xref.Ctx{Node: p.doc.Root, Pos: 1, Size: 1})
+	if rerr == nil && hasUnboundReference(ast, env) {
+		// the reference resolves names when it evaluates them; whether an
+		// unbound name in a part that is never evaluated is an error is not
+		// stated by the properties
+		rerr = fmt.Errorf("unbound reference somewhere in the expression")
+	}
+	if rerr != nil || env.Unpinned != "" {
+		// the reference cannot say (unknown function, arity, type error, out of scope): only "no panic"
+		if _, xerr := safeExec(p.root, &g, set...); xerr != nil {
+			if pe, ok := xerr.(*panicError); ok {
+				return fmt.Errorf("Exec(%q) panicked: %v", c.Text, pe.v)
+			}
+		}
+		return nil
+	}
+	impl, xerr := safeExec(p.root, &g, set...)
+	if xerr != nil {
+		return fmt.Errorf("Exec(%q) failed: %v; the expression means %s", c.Text, xerr, ref.Describe())
+	}
+	if err := compareResult(impl, ref, p.loc, wantsAscending(ast), passesCallerOrder(ast)); err != nil {
+		return fmt.Errorf("Exec(%q): %v", c.Text, err)
+	}
+	st.Class("strict-valid-evaluated")
+	return nil
+}
+
 var c08Neg = reg("C08", "c08-reject", checkC08Neg)
 
 func checkC08Pos(c *c08Case) error {
@@ -63,6 +164,49 @@ func checkC08Neg(c *c08NegCase) error {
 		return fmt.Errorf("BuildExpr(%q) accepted a string that is not an XPath 1.0 expression (%s of %q)", c.Text, c.Mutation, c.From)
 	}
 	return nil
+}
+
+var builtinNames = map[string]bool{"last": true, "position": true, "count": true, "local-name": true, "namespace-uri": true, "name": true, "string": true, "concat": true,
+	"starts-with": true, "contains": true, "substring-before": true, "substring-after": true, "substring": true, "string-length": true, "normalize-space": true, "translate": true,
+	"boolean": true, "not": true, "true": true, "false": true, "lang": true, "number": true, "sum": true, "floor": true, "ceiling": true, "round": true}
+
+func hasUnboundReference(x *xast.Expr, env *xref.Env) bool {
+	bad := false
+	prefixOK := func(q string) bool {
+		if i := strings.IndexByte(q, ':'); i >= 0 {
+			_, ok := env.NS[q[:i]]
+			return ok
+		}
+		return true
+	}
+	xast.Walk(x, func(e *xast.Expr) {
+		switch e.K {
+		case "var":
+			if !prefixOK(e.S) {
+				bad = true
+				return
+			}
+			name := xref.Name{Local: e.S}
+			if i := strings.IndexByte(e.S, ':'); i >= 0 {
+				name = xref.Name{Space: env.NS[e.S[:i]], Local: e.S[i+1:]}
+			}
+			if _, ok := env.Vars[name]; !ok {
+				bad = true
+			}
+		case "call":
+			if strings.Contains(e.S, ":") || !builtinNames[e.S] {
+				bad = true
+			}
+		}
+	})
+	xast.WalkSteps(x, func(s *xast.Step) {
+		if s.Test.P != "" {
+			if _, ok := env.NS[s.Test.P]; !ok {
+				bad = true
+			}
+		}
+	})
+	return bad
 }
 
 var allBinOps = []string{"or", "and", "=", "!=", "<", "<=", ">", ">=", "+", "-", "*", "div", "mod"}
@@ -269,7 +413,7 @@ func mutate(t *rapid.T, toks []string) (string, string) {
 
 func TestC08(t *testing.T) {
 	runWitnesses(t, "C08")
-	runProp(t, "renderings", 6000, 400000, func(t *rapid.T) {
+	runProp(t, "renderings", 12000, 400000, func(t *rapid.T) {
 		gc, p := genDocCase(t, caseOpts{cfg: xmodel.GenCfg{MaxDepth: 3, MaxKids: 3, Numeric: true, MaxTop: 1}, vars: true, nodeVars: true},
 			func(g *xast.G, p *prepared) *xast.Expr { return genC08(g, 3) }, xast.Style{})
 		if gc == nil {
@@ -312,7 +456,54 @@ func TestC08(t *testing.T) {
 		_ = p
 		c08Pos.run(t, c)
 	})
-	runProp(t, "reject", 10000, 600000, func(t *rapid.T) {
+	// token soup and lightly damaged expressions, judged by the recogniser sandwich
+	soupVocab := []string{"a", "b", "r", "child", "self", "text", "node", "div", "mod", "and", "or", "x:a", "p:*", "*:a", "*", "/", "//", "|", "+", "-", "=", "!=", "<", "<=", ">", ">=",
+		"(", ")", "[", "]", ",", ".", "..", "@", "::", "$n", "$v", "$x:n", "1", "2.5", ".5", "'s'", "\"d\"", "count", "string", "position", "last", "text()", "node()", "comment()",
+		"child::", "ancestor::", "attribute::", "processing-instruction(", "id", "k", "a-b", "#obj", "é", " ", "  ", "\t"}
+	runProp(t, "sandwich", 24000, 800000, func(t *rapid.T) {
+		var text string
+		switch rapid.IntRange(0, 3).Draw(t, "soupSource") {
+		case 0:
+			n := rapid.IntRange(1, 9).Draw(t, "soupLen")
+			var sb strings.Builder
+			for i := 0; i < n; i++ {
+				sb.WriteString(soupVocab[rapid.IntRange(0, len(soupVocab)-1).Draw(t, "soupTok")])
+			}
+			text = sb.String()
+		case 1:
+			// a valid expression with one token deleted, duplicated or replaced by a vocabulary token
+			g := &xast.G{T: t, Env: xast.GenEnv{ElemNames: []string{"a", "b", "r", "child", "a-b"}, AttrNames: []string{"id", "k"}, Prefixes: []string{"x", "p"}, NumVars: []string{"n"}, StrVars: []string{"s"}, NodeVars: []string{"v"}, PITargets: []string{"t"}}}
+			toks := xast.Tokens(genC08(g, 2))
+			i := rapid.IntRange(0, len(toks)-1).Draw(t, "at")
+			switch rapid.IntRange(0, 2).Draw(t, "damage") {
+			case 0:
+				toks = append(toks[:i:i], toks[i+1:]...)
+			case 1:
+				toks = append(toks[:i+1:i+1], toks[i:]...)
+			default:
+				toks[i] = soupVocab[rapid.IntRange(0, len(soupVocab)-1).Draw(t, "repl")]
+			}
+			text = xast.JoinTokens(toks)
+			if rapid.Bool().Draw(t, "glue") {
+				text = strings.Join(toks, "")
+			}
+		case 2:
+			g := &xast.G{T: t, Env: xast.GenEnv{ElemNames: []string{"a", "b", "r"}, AttrNames: []string{"id", "k"}, Prefixes: []string{"x", "p"}, NumVars: []string{"n"}, StrVars: []string{"s"}, NodeVars: []string{"v"}}}
+			text = xast.Render(genC08(g, 2), xast.RapidChooser{T: t}, drawStyle(t))
+		default:
+			text = rapid.StringOfN(rapid.SampledFrom([]rune("ab1 /*@[]().:$'\"|+-=<>!,é\t#_")), 0, 16, -1).Draw(t, "rawish")
+		}
+		c := &c08TextCase{Text: text}
+		if len(lexTokens(text)) >= 2 {
+			st.NonTrivial("sandwich|" + text)
+			if len(text) < 80 {
+				_, _, serr := xparse.Parse(text, xparse.Strict)
+				st.Sample("sandwich|"+text, map[string]any{"text": text, "strictly valid": serr == nil})
+			}
+		}
+		c08Sandwich.run(t, c)
+	})
+	runProp(t, "reject", 20000, 600000, func(t *rapid.T) {
 		g := &xast.G{T: t, Env: xast.GenEnv{ElemNames: []string{"a", "b", "child", "a-b", "text"}, AttrNames: []string{"id", "k"}, Prefixes: []string{"x"},
 			NumVars: []string{"n"}, StrVars: []string{"s"}, NodeVars: []string{"v"}, PITargets: []string{"t"}}}
 		e := genC08(g, 2)
